@@ -82,6 +82,14 @@ TFen ==
       /\ (FideKey(o) = FideKey(r) /\ ~PseudoEpOnly(o, r)) => Chk("FenHash", Tr[l].orig.hash = Tr[l].re.hash, Tr[l].text)
       /\ (PseudoEpOnly(o, r) /\ Tr[l].orig.hash # Tr[l].re.hash) => PrintT(<<"KNOWN", "pseudo-ep", "FideHash", l, Tr[l].text>>)
 
+\* two FEN texts that differ only in the en-passant field, read separately: if they describe rule-equal positions (no legal
+\* en-passant capture) the two positions read are identical, hash keys included
+TFenEp ==
+   /\ Ev("FenEp")
+   /\ UNCHANGED <<pos, stack, pv>>
+   /\ LET a == PosOfRec(Tr[l].a)  b == PosOfRec(Tr[l].b) IN
+      (FideKey(a) = FideKey(b)) => Chk("RuleEqualFensReadEqual", a = b /\ Tr[l].eq /\ Tr[l].a.hash = Tr[l].b.hash, Tr[l].text)
+
 TSer ==
    /\ Ev("Ser")
    /\ UNCHANGED <<pos, stack, pv>>
@@ -103,6 +111,6 @@ TSame ==
                => Chk("PawnHashFunctional", Tr[l].a.phash = Tr[l].b.phash, <<Tr[l].a.phash, Tr[l].b.phash>>)
 
 TInit == l = 1 /\ pos = InitPos /\ stack = <<>> /\ pv = <<>>
-TNext == TMeta \/ TReset \/ TMv \/ TUnmv \/ TNullOn \/ TNullOff \/ TCopy \/ TState \/ TFen \/ TSer \/ TSame
+TNext == TMeta \/ TReset \/ TMv \/ TUnmv \/ TNullOn \/ TNullOff \/ TCopy \/ TState \/ TFen \/ TFenEp \/ TSer \/ TSame
 Accepted == TLCGet("stats").diameter - 1 = Len(Tr) \/ (PrintT(<<"REJECTED_AT", TLCGet("stats").diameter>>) /\ FALSE)
 =============================================================================
